@@ -39,7 +39,11 @@ func (tpl replyTpl) wire4(req *dhcpv4.DHCPv4) []byte {
 	mt := map[int]dhcpv4.MessageType{0: dhcpv4.MessageTypeOffer, 1: dhcpv4.MessageTypeAck, 2: dhcpv4.MessageTypeNak, 3: dhcpv4.MessageTypeInform}[k]
 	mods := []dhcpv4.Modifier{dhcpv4.WithMessageType(mt), dhcpv4.WithYourIP(net.IP{192, 168, 0, tpl.yi})}
 	if tpl.server != 0 {
-		mods = append(mods, dhcpv4.WithOption(dhcpv4.OptServerIdentifier(net.IP{10, 0, 0, tpl.server})))
+		sid := net.IP{10, 0, 0, tpl.server}
+		if tpl.server == 255 {
+			sid = net.IP{0, 0, 0, 0} // an identifier that is there and says 0.0.0.0 - not the same as none
+		}
+		mods = append(mods, dhcpv4.WithOption(dhcpv4.OptServerIdentifier(sid)))
 	}
 	if tpl.extra != 0 {
 		val := map[byte][]byte{80: {}, 51: {0, 0, 14, 16}, 58: {0, 0, 7, 8}, 59: {0, 0, 12, 0}, 61: {1, 2, 0, 0, 0, 0, 1}, 82: {1, 2, 'e', '0'}, 116: {1}, 52: {3}}[tpl.extra]
@@ -157,7 +161,7 @@ func init() {
 }
 
 func (r *Run) randTpl(phase int) replyTpl {
-	tp := replyTpl{server: byte(r.Pick(0, 1, 1, 2, 3)), yi: byte(1 + r.Rng.Intn(250)), inner: phase - 1, extra: byte(r.Pick(0, 0, 0, 80, 80, 51, 58, 59, 61, 82, 116, 52))}
+	tp := replyTpl{server: byte(r.Pick(0, 1, 1, 2, 3, 0, 255)), yi: byte(1 + r.Rng.Intn(250)), inner: phase - 1, extra: byte(r.Pick(0, 0, 0, 80, 80, 51, 58, 59, 61, 82, 116, 52))}
 	if phase == 1 {
 		tp.kind = r.Pick(0, 0, 0, 1, 2, 3, 4, 5, 6, 7)
 	} else {
